@@ -70,6 +70,8 @@ package rhp
 //@   requires [hostsig] called("SignHash") && revision.HostSignature == callres("SignHash") && callarg("SignHash", 1) == callres("ContractSigHash")
 //@   requires [prices] called("Validate") && callres("Validate") == nil
 //@   requires [roots-root] rhp4.MetaRoot(roots) == revision.FileMerkleRoot
+//@                 || (called("BuildAppendProof") && revision.FileMerkleRoot == callres("BuildAppendProof", 1) && callarg("BuildAppendProof", 0) == callres("LockV2Contract", 0).Roots
+//@                     && len(roots) == len(callarg("BuildAppendProof", 0)) + len(callarg("BuildAppendProof", 1)))
 //@   requires [roots-size] len(roots) * rhp4.SectorSize == revision.Filesize
 //
 //@ func (*Server).lockContractForRevision
@@ -88,3 +90,129 @@ package rhp
 //@ func (*Server).handleRPCSectorRoots props C08,C09
 //@   nopanic
 //@   requires s != nil && s.contractor != nil && s.chain != nil && stream != nil
+//
+// ---------------------------------------------------------------------------
+// C08 / C15: credits are backed by a doubly signed revision of the locked contract
+//
+//@ extern rhp4.ReviseForFundAccounts pure
+//@   ensures result0.RenterPublicKey == fc.RenterPublicKey && result0.HostPublicKey == fc.HostPublicKey
+//@ extern rhp4.ReviseForReplenish pure
+//@   ensures result0.RenterPublicKey == fc.RenterPublicKey && result0.HostPublicKey == fc.HostPublicKey
+//@ extern (*rhp4.RPCReplenishAccountsRequest).ValidChallengeSignature pure
+//@ extern (*rhp4.RPCReplenishAccountsRequest).Validate
+//@   assigns nothing
+//@ extern (*rhp4.RPCFundAccountsRequest).Validate
+//@   assigns nothing
+//@ extern (types.Currency).SubWithUnderflow pure
+//@ iface Contractor.AccountBalances
+//@   params accounts
+//@   assigns nothing
+//@   ensures result1 == nil ==> len(result0) == len(accounts)
+//@ iface Contractor.PoolBalances
+//@   params pools
+//@   assigns nothing
+//@   ensures result1 == nil ==> len(result0) == len(pools)
+//
+//@ pred creditBacked(contractID types.FileContractID, revision types.V2FileContract) =
+//@      called("LockV2Contract") && callres("LockV2Contract", 2) == nil && callarg("LockV2Contract", 1) == contractID && callres("LockV2Contract", 0).Revisable
+//@   && ((called("ReviseForFundAccounts") && callres("ReviseForFundAccounts", 2) == nil && sameTerms(revision, callres("ReviseForFundAccounts", 0)) && callarg("ReviseForFundAccounts", 0) == callres("LockV2Contract", 0).Revision)
+//@    || (called("ReviseForReplenish") && callres("ReviseForReplenish", 2) == nil && sameTerms(revision, callres("ReviseForReplenish", 0)) && callarg("ReviseForReplenish", 0) == callres("LockV2Contract", 0).Revision))
+//@   && called("VerifyHash") && callres("VerifyHash") && callarg("VerifyHash", 0) == callres("LockV2Contract", 0).Revision.RenterPublicKey
+//@   && callarg("VerifyHash", 1) == callres("ContractSigHash") && sameTerms(callarg("ContractSigHash", 1), revision) && callarg("VerifyHash", 2) == revision.RenterSignature
+//@   && called("SignHash") && revision.HostSignature == callres("SignHash") && callarg("SignHash", 1) == callres("ContractSigHash")
+//
+//@ iface Contractor.CreditAccountsWithContract
+//@   params deposits, contractID, revision, usage
+//@   assigns nothing
+//@   requires [backed] creditBacked(contractID, revision)
+//@ iface Contractor.CreditPoolsWithContract
+//@   params deposits, contractID, revision, usage
+//@   assigns nothing
+//@   requires [backed] creditBacked(contractID, revision)
+//
+//@ func (*Server).handleRPCFundAccounts props C08,C15
+//@   nopanic
+//@   requires s != nil && s.contractor != nil && s.chain != nil && stream != nil
+//@   loop "range req.Deposits"
+//@     invariant -1 <= rangeindex && rangeindex < len(req.Deposits)
+//@ func (*Server).handleRPCReplenishAccounts props C08,C15
+//@   nopanic
+//@   requires s != nil && s.contractor != nil && s.chain != nil && stream != nil
+//@   loop "range balances"
+//@     invariant -1 <= rangeindex && rangeindex < len(balances) && len(balances) == len(req.Accounts)
+//@ func (*Server).handleRPCReplenishPools props C08,C15
+//@   nopanic
+//@   requires s != nil && s.contractor != nil && s.chain != nil && stream != nil
+//@   loop "range balances"
+//@     invariant -1 <= rangeindex && rangeindex < len(balances) && len(balances) == len(req.Accounts)
+//
+//@ func (*Server).handleRPCAppendSectors props C08,C09
+//@   nopanic
+//@   requires s != nil && s.contractor != nil && s.chain != nil && s.sectors != nil && stream != nil
+//@   loop "range req.Sectors"
+//@     invariant -1 <= rangeindex && rangeindex < len(req.Sectors) && len(accepted) == len(req.Sectors)
+//@     invariant len(roots) == len(state.Roots) + appended && len(state.Roots) * rhp4.SectorSize == state.Revision.Filesize && state.Roots == callres("LockV2Contract", 0).Roots
+//
+// ---------------------------------------------------------------------------
+// C15: service is paid before delivery; pool attach/detach only with verified signatures
+//
+//@ extern (*rhp4.RPCReadSectorRequest).Validate
+//@   assigns nothing
+//@ extern (*rhp4.RPCWriteSectorRequest).Validate
+//@   assigns nothing
+//@ extern (*rhp4.RPCVerifySectorRequest).Validate
+//@   assigns nothing
+//@ extern (*rhp4.RPCAttachPoolsRequest).Validate
+//@   assigns nothing
+//@ extern (*rhp4.RPCDetachPoolsRequest).Validate
+//@   assigns nothing
+//@ extern (*rhp4.PoolAttachment).ValidSignature pure
+//@ extern (*rhp4.PoolDetachment).ValidSignature pure
+//@ extern (rhp4.HostPrices).RPCReadSectorCost pure
+//@ extern (rhp4.HostPrices).RPCWriteSectorCost pure
+//@ extern (rhp4.HostPrices).RPCVerifySectorCost pure
+//
+// A debit is for the priced cost of the requested service under a validated (host-signed,
+// unexpired) price table, and happens before the sector is read or stored.
+//@ iface Contractor.DebitAccount
+//@   params account, usage
+//@   assigns nothing
+//@   requires [validated] called("Validate") && callres("Validate") == nil
+//@   requires [priced] (called("RPCReadSectorCost") && usage == callres("RPCReadSectorCost")) || (called("RPCWriteSectorCost") && usage == callres("RPCWriteSectorCost")) || (called("RPCVerifySectorCost") && usage == callres("RPCVerifySectorCost"))
+//@   requires [before-service] !mayHaveCalled("ReadSector") && !mayHaveCalled("StoreSector")
+//@ iface Sectors.ReadSector
+//@   params root, offset, length
+//@   assigns nothing
+//@   requires [paid] called("DebitAccount") && callres("DebitAccount") == nil
+//@   ensures result2 == nil ==> len(result0) == length
+//@ iface Sectors.StoreSector
+//@   assigns nothing
+//@   requires [paid] called("DebitAccount") && callres("DebitAccount") == nil
+//@ iface Contractor.AttachPools
+//@   params attachments
+//@   assigns nothing
+//@   requires [signed] called("PublicKey") && (forall i int :: { attachments[i] } 0 <= i && i < len(attachments) ==> attachments[i].ValidSignature(callres("PublicKey")))
+//@ iface Contractor.DetachPools
+//@   params detachments
+//@   assigns nothing
+//@   requires [signed] called("PublicKey") && (forall i int :: { detachments[i] } 0 <= i && i < len(detachments) ==> detachments[i].ValidSignature(callres("PublicKey")))
+//
+//@ func (*Server).handleRPCVerifySector props C15
+//@   nopanic
+//@   requires s != nil && s.contractor != nil && s.chain != nil && s.sectors != nil && stream != nil
+//@ func (*Server).handleRPCAttachPools props C15
+//@   nopanic
+//@   requires s != nil && s.contractor != nil && stream != nil
+//@   loop "range req.Attachments"
+//@     invariant -1 <= rangeindex && rangeindex < len(req.Attachments)
+//@     invariant forall j int :: { req.Attachments[j] } 0 <= j && j <= rangeindex ==> req.Attachments[j].ValidSignature(hostKey)
+//@ func (*Server).handleRPCDetachPools props C15
+//@   nopanic
+//@   requires s != nil && s.contractor != nil && stream != nil
+//@   loop "range req.Detachments"
+//@     invariant -1 <= rangeindex && rangeindex < len(req.Detachments)
+//@     invariant forall j int :: { req.Detachments[j] } 0 <= j && j <= rangeindex ==> req.Detachments[j].ValidSignature(hostKey)
+//@ func (*Server).handleRPCReadSector props C15
+//@   requires s != nil && s.contractor != nil && s.sectors != nil && stream != nil
+//@ func (*Server).handleRPCWriteSector props C15
+//@   requires s != nil && s.contractor != nil && s.sectors != nil && s.chain != nil && stream != nil
